@@ -18,8 +18,8 @@
      tc_*   typechecker: computes a type for every expression even after an error
             (latestReturnedType; `None` is VoidType, the "no type" value) and reports mismatches.
 
-   Quirks of the pinned tree that decide acceptance are switchable (record `quirks`): `pinned` is
-   the code as it is, `patched` is the code after the patches proposed in the C04 report. *)
+   Defects of the pinned tree that decided acceptance are switchable (record `quirks`): `pinned` is
+   the pinned tree, `patched` is the tree after the four repairs, which is what /repo is now (`current`). *)
 From Coq Require Import List Arith Bool.
 Import ListNotations.
 From DDP Require Import Lang.MiniSyntax Lang.MiniTyping.
@@ -182,13 +182,18 @@ Definition tc_bin (o : binop) (a b : vty) : vty * list diag :=
 Definition vcast_ok (s : vty) (t : ty) : bool :=
   match s with Some s' => cast_okb s' t | None => false end.
 
-(* typechecker.go checkFieldAccess: the Kombination always belongs to the imported module *)
+(* typechecker.go checkFieldAccess: the Kombination always belongs to the imported module.
+   Before 581329c the declaration was only looked up by name in the scope chain (no protection when the
+   Kombination is not visible, type assertion panic when the name is bound to something else); since then
+   findStructDecl finds it by type in the scope or in the imported modules *)
 Definition tc_field_priv (G : env) (s : name) (pub : bool) : list diag :=
-  match lookup G s with
-  | Some BStruct => unless pub DPrivField
-  | None => if q_field_unimported Q then [] else unless pub DPrivField
-  | Some _ => [DPanic]
-  end.
+  if q_field_unimported Q then
+    match lookup G s with
+    | Some BStruct => unless pub DPrivField
+    | None => []
+    | Some _ => [DPanic]
+    end
+  else unless pub DPrivField.
 
 Fixpoint tc_expr (F : fenv) (G : env) (e : expr) : vty * list diag :=
   match e with
@@ -413,7 +418,11 @@ Definition check_with (Q : quirks) (p : prog) : list diag :=
   let '(di, G0, F0) := ck_import (p_mod p) (p_imp p) in
   di ++ ck_tops Q (p_mod p) F0 G0 (p_tops p).
 
-(* the frontend of the pinned tree *)
-Definition check (p : prog) : list diag := check_with pinned p.
-(* the frontend after the proposed patches *)
+(* the frontend as it is in /repo now: the four defects were repaired by ec4b99d (gleich/ungleich), 328cc02 (return),
+   4309fac (VisitIdent uses the resolver's binding; loop bounds resolved outside the body), 581329c (private fields) *)
+Definition current : quirks := patched.
+Definition check (p : prog) : list diag := check_with current p.
+(* the frontend of the pinned tree, before the repairs (kept for the regression facts) *)
+Definition check_pinned (p : prog) : list diag := check_with pinned p.
+(* the repaired frontend under its old name (= check) *)
 Definition check_patched (p : prog) : list diag := check_with patched p.
